@@ -14,6 +14,7 @@ against invariants that the properties state:
   property          the constraint is about the same property                                             (C02)
   or-scope          a disjunction only appears with disable_or_statements=False, over kinds that were in the input   (C13)
   figures           its count / ratio are those of an input candidate (or the IRI+BNode sum of the merged node kind)   (C01, C12)
+  coverage          in data-consistent inputs the surviving constraint carries the total of the node kinds            (C03, C01)
   order-free        the outcome does not depend on the order in which the candidates arrive                (C09)
 """
 import itertools
@@ -98,7 +99,7 @@ def _summary(st):
 
 def invariants(ctx, clause, which=None):
     su = Setup(ctx)
-    fails = {k: None for k in ("no-crash", "one-per-key", "direction", "property", "or-scope", "figures", "order-free")}
+    fails = {k: None for k in ("no-crash", "one-per-key", "direction", "property", "or-scope", "figures", "coverage", "order-free")}
     counts_seen = {k: 0 for k in fails}
     runs = 0
     for r in range(2, len(KINDS) + 1):
@@ -157,6 +158,16 @@ def invariants(ctx, clause, which=None):
                         if got not in legal:
                             fails["figures"] = fails["figures"] or "%s: the constraint reports %s instances / ratio %s, which is no candidate's figure" % (
                                 desc, got[0], got[1])
+                        # coverage: every non-literal value is an IRI or a blank node, and an instance of a shape is one of them,
+                        # so in data-consistent inputs (no shape more frequent than the node kinds together) the surviving
+                        # constraint must stand for all of them: it carries the node kinds' total
+                        node_total = sum(c for k, c in zip(kinds, counts) if k in ("IRI", "BNode"))
+                        if node_total and all(c <= node_total for k, c in zip(kinds, counts) if k not in ("IRI", "BNode")):
+                            counts_seen["coverage"] += 1
+                            if f.get("_n_occurences") != node_total:
+                                fails["coverage"] = fails["coverage"] or (
+                                    "%s: the surviving constraint (%s) stands for %s instances, but %d instances have a non-literal "
+                                    "value: the others do not match it" % (desc, _summary(st)[1], f.get("_n_occurences"), node_total))
                         # order independence: the reversed input gives the same constraint
                         counts_seen["order-free"] += 1
                         out2 = su.run(kinds, counts, total, inv, disable_or, redundant, order=list(range(len(kinds)))[::-1])
@@ -190,6 +201,7 @@ def invariants(ctx, clause, which=None):
         "property": "the constraint is about the candidates' property",
         "or-scope": "a disjunction appears only when disjunctions are enabled, over kinds of the input, with the choice serializer",
         "figures": "the constraint reports the figures of one of its candidates (or the IRI+BNode sum of the merged node kind)",
+        "coverage": "in data-consistent inputs the surviving constraint stands for every instance that has a non-literal value",
         "order-free": "with untied counts the outcome does not depend on the order of the candidates",
     }
     obs = []
